@@ -231,9 +231,13 @@ def confirmed(ctx):
     in1 = lambda e: any((p.cond.single_atom() or ("",)) == ("inloop", l1) for p in e.pc)
     cnames = sorted({e.name for e in tr.of("local") if e.aug is not None and len(e.stack) == 1 and in1(e)})
     rets0 = [e for e in tr.returns() if len(e.stack) == 1]
+    early = [e for e in rets0 if [p for p in e.pc if (p.cond.single_atom() or ("",))[0] != "inloop"]]
+    ctx.ob("ORD", site, "no verdict is returned before the votes are tallied and the waiting periods advanced", not early,
+           "a return under %s skips the tally: members still inside their waiting period neither vote nor age in such a call"
+           % ("; ".join(q.short(p.cond, 60) for p in early[0].pc) if early else ""), early[0] if early else None)
     drift_name = None
     if rets0:
-        for conds, leaf in q.ite_leaves(rets0[0].value):
+        for conds, leaf in q.ite_leaves(rets0[-1].value):
             if leaf == const("drift") and conds:
                 lv = [z for z in T.atoms_of(conds[-1], "loopvar") if z[2].startswith("$")]
                 if len(lv) == 1:
@@ -257,11 +261,21 @@ def confirmed(ctx):
                         st_atoms.add(a)
                     elif _root(a[1]) == "wait_period_counters":
                         ct_atoms.add(a)
+                elif a[0] == "getattr" and a[2] in ("drift_state", "_drift_state") and T.mentions(a[1], lambda z: z == ("param", "detectors")):
+                    # the member's state read directly from the member of this iteration
+                    st_atoms.add(a)
+    if any(a[0] == "sub" for a in st_atoms):
+        st_atoms = {a for a in st_atoms if a[0] == "sub"}  # the states were collected into a list first: its elements are the state atoms
     if len(st_atoms) != 1 or len(ct_atoms) != 1:
         raise AnalysisError("ConfirmedElection: per-member state / counter not recognised (%d, %d)" % (len(st_atoms), len(ct_atoms)))
     sa, ca = st_atoms.pop(), ct_atoms.pop()
-    comp = sa[1].single_atom()
-    ok = comp[1] == "list" and comp[3] == (P("detectors"),) and not comp[4] and (comp[2][0].single_atom() or ("",))[0] == "getattr" and comp[2][0].single_atom()[2] == "drift_state"
+    if sa[0] == "getattr":
+        # d.drift_state with d the i-th member (enumerate / index over the detectors in order)
+        ok = v1["iter"] is not None and T.mentions(v1["iter"], lambda z: z == ("param", "detectors")) and \
+            (T.mentions(sa[1], lambda z: z == i1.single_atom()) or T.mentions(sa[1], lambda z: z[0] == "iter" and z[-1] == l1))
+    else:
+        comp = sa[1].single_atom()
+        ok = comp[1] == "list" and comp[3] == (P("detectors"),) and not comp[4] and (comp[2][0].single_atom() or ("",))[0] == "getattr" and comp[2][0].single_atom()[2] == "drift_state"
     ctx.ob("FRM", site, "states are the members' drift_state in order", ok, "")
     for e in cm:
         ok = e.aug == ("Add", const(1)) and e.path == (("item", i1),)
